@@ -62,6 +62,10 @@ def step (simd : Bool) (_ : Unit) (ws : List String) : Unit × String :=
       pure (showList ((uniformStream (← intOfTok s) (← intOfTok q) (← f lo) (← f hi) (← n.toNat?)).map tokOfF32))
   | ["urd", l, u, gmin, gmax, g] => out do
       pure (tokOfF32 (uniform_real (← f l) (← f u) (← gmin.toNat?) (← gmax.toNat?) (← g.toNat?)))
+  | ["urd2", l, u, gmin1, gmax1, g1, gmin2, gmax2, g2] => out do
+      let a := uniform_real (← f l) (← f u) (← gmin1.toNat?) (← gmax1.toNat?) (← g1.toNat?)
+      let b := uniform_real (← f l) (← f u) (← gmin2.toNat?) (← gmax2.toNat?) (← g2.toNat?)
+      pure (showList [tokOfF32 a, tokOfF32 b, tokOfF32 a])
   | ["color", i] => out do
       let c : Float32 × Float32 × Float32 := makeRandomColor (← i.toNat?)
       pure (showList [tokOfF32 c.1, tokOfF32 c.2.1, tokOfF32 c.2.2])
